@@ -25,6 +25,7 @@ mod names;
 mod packed;
 mod tde;
 mod vser;
+mod x3;
 
 use domain::{Schema, Verdict, OPAQUE_RELATION_TYPES};
 use rayon::prelude::*;
@@ -134,6 +135,19 @@ pub struct Ctx<'a> {
     pub cap_per_type: u64,
     /// a type whose ≤k pass yields at most this many values is also explored at k+1
     pub extend_below: u64,
+    /// X3 worker subprocess: violations are streamed to the supervisor (which owns the replay files),
+    /// and a panic of the owned conversion on deviated bytes is an observation, not a verdict
+    pub worker: bool,
+}
+
+impl Ctx<'_> {
+    pub fn violation(&self, identity: &str, what: &str, case: Value) {
+        if self.worker {
+            println!("V {}", json!({"identity": identity, "what": what, "case": case}));
+        } else {
+            self.run.violation(identity, what, case);
+        }
+    }
 }
 
 #[derive(Default)]
@@ -407,7 +421,7 @@ fn strong<T: Owned, R: Reader<T>>(
     let t = ops.name;
     match guard(|| v.validate()) {
         Err(p) => {
-            ctx.run.violation(
+            ctx.violation(
                 &format!("{t} validate panics: {} in {}", p.kind(), p.site()),
                 &format!("{}{stage}", p.message),
                 case(),
@@ -423,7 +437,7 @@ fn strong<T: Owned, R: Reader<T>>(
     l.trans += 1;
     let b = match guard(|| dump_table(v)) {
         Err(p) => {
-            ctx.run.violation(
+            ctx.violation(
                 &format!("{t} dump_table panics on a validated value: {} in {}", p.kind(), p.site()),
                 &format!("{}{stage}", p.message),
                 case(),
@@ -435,7 +449,7 @@ fn strong<T: Owned, R: Reader<T>>(
             return;
         }
         Ok(Err(e)) => {
-            ctx.run.violation(
+            ctx.violation(
                 &format!("{t} dump_table fails after validate Ok: {}", err_kind(&e)),
                 &format!("{e:?}{stage}"),
                 case(),
@@ -447,7 +461,7 @@ fn strong<T: Owned, R: Reader<T>>(
     if let Some(n) = R::expected_size(v) {
         l.cnt("compute_size_compared");
         if n != b.len() {
-            ctx.run.violation(
+            ctx.violation(
                 &format!("{t} compute_size disagrees with the compiled length"),
                 &format!("compute_size() = {n}, compiled {} bytes{stage}: {}", b.len(), hex(&b[..b.len().min(200)])),
                 case(),
@@ -458,7 +472,7 @@ fn strong<T: Owned, R: Reader<T>>(
     l.trans += 1;
     let v1 = match guard(|| R::read(&b, Some(v), None)) {
         Err(p) => {
-            ctx.run.violation(
+            ctx.violation(
                 &format!("{t} read of compiled bytes panics: {} in {}", p.kind(), p.site()),
                 &format!("{}{stage} ; bytes={}", p.message, hex(&b)),
                 case(),
@@ -466,7 +480,7 @@ fn strong<T: Owned, R: Reader<T>>(
             return;
         }
         Ok(Err(e)) => {
-            ctx.run.violation(
+            ctx.violation(
                 &format!("{t} round trip: compiled bytes do not read back ({})", err_kind(&e)),
                 &format!("{e:?}{stage}; compiled bytes = {}", hex(&b[..b.len().min(200)])),
                 case(),
@@ -497,9 +511,22 @@ fn strong<T: Owned, R: Reader<T>>(
             &mut tolerated,
         );
         match d {
+            // The offset packer resolves 16-bit overflows of GSUB/GPOS by promoting lookups to Extension
+            // lookups and by splitting subtables (write-fonts/src/graph/*): the re-read table then has
+            // the same meaning but not the same shape.  Whether that preserves lookup semantics is C16's
+            // property; here such values (compiled size > 64 KiB, difference = a lookup re-read as
+            // Extension or with more subtables) are counted and not compared.
+            Some(d)
+                if b.len() > 0xFFFF
+                    && ((d.class == "variant changed" && d.reread.get("$v").and_then(|x| x.as_str()) == Some("Extension"))
+                        || (d.owner == "Lookup" && d.rel == "subtables" && d.class == "re-read array longer")) =>
+            {
+                l.cnt("packer_overflow_resolution_not_compared");
+                return;
+            }
             Some(d) => {
                 let id = identity_for(&ctx.schema, t, &d, &a);
-                ctx.run.violation(
+                ctx.violation(
                     &id,
                     &format!(
                         "root type {t}{stage}, at {}: written {} / re-read {}; compiled bytes = {}",
@@ -522,7 +549,7 @@ fn strong<T: Owned, R: Reader<T>>(
                 l.cnt("equal_modulo_hint_fields_written_as_none");
             }
             None => {
-                ctx.run.violation(
+                ctx.violation(
                     &format!("{t} round trip: values compare unequal but render identically"),
                     &format!("PartialEq reports a difference that the serde rendering does not show{stage}"),
                     case(),
@@ -536,7 +563,7 @@ fn strong<T: Owned, R: Reader<T>>(
         match guard(|| dump_table(&v1)) {
             Ok(Ok(b2)) => {
                 if b2 != b {
-                    ctx.run.violation(
+                    ctx.violation(
                         &format!("{t} recompile of the re-read value gives different bytes"),
                         &format!("{stage} first = {} / second = {}", hex(&b[..b.len().min(200)]), hex(&b2[..b2.len().min(200)])),
                         case(),
@@ -545,7 +572,7 @@ fn strong<T: Owned, R: Reader<T>>(
                 }
             }
             Ok(Err(e)) => {
-                ctx.run.violation(
+                ctx.violation(
                     &format!("{t} recompile of the re-read value fails: {}", err_kind(&e)),
                     &format!("{e:?}{stage}"),
                     case(),
@@ -553,7 +580,7 @@ fn strong<T: Owned, R: Reader<T>>(
                 return;
             }
             Err(p) => {
-                ctx.run.violation(
+                ctx.violation(
                     &format!("{t} recompile of the re-read value panics: {} in {}", p.kind(), p.site()),
                     &format!("{}{stage}", p.message),
                     case(),
@@ -613,7 +640,7 @@ fn stability<T: Owned, R: Reader<T>>(ctx: &Ctx, ops: &TypeOps, v0: &T, case: &dy
         }
         Err(p) => {
             // a reader panic on bytes is a C01 matter, but it is reported here too: reading must not panic
-            ctx.run.violation(
+            ctx.violation(
                 &format!("{} read of compiled bytes panics: {} in {}", ops.name, p.kind(), p.site()),
                 &p.message,
                 case(),
@@ -850,8 +877,14 @@ fn parsed<T: Owned, R: Reader<T>>(
     let v = match guard(|| R::read(bytes, None, font)) {
         Ok(Ok(v)) => v,
         Ok(Err(_)) => return false,
+        Err(p) if ctx.worker => {
+            // hostile bytes: a panic in read / owned conversion is C01/C02's business
+            l.cnt("x3_owned_conversion_panics");
+            l.unjudged_panics.insert(format!("x3: {} read/to_owned panics: {} in {}", ops.name, p.kind(), p.site()));
+            return false;
+        }
         Err(p) => {
-            ctx.run.violation(
+            ctx.violation(
                 &format!("{} read panics: {} in {}", ops.name, p.kind(), p.site()),
                 &format!("{} on {label}", p.message),
                 json!({"source": "parsed", "type": ops.full(), "label": label, "bytes": hex(bytes), "trusted": trusted_consistent, "font_args": font.map(|f| json!([f.num_glyphs, f.number_of_h_metrics, f.number_of_long_ver_metrics]))}),
@@ -885,6 +918,16 @@ fn parsed<T: Owned, R: Reader<T>>(
             }
         }
     }
+    if ctx.worker {
+        if let Ok(Verdict::StabilityOnly(r)) = &verdict {
+            // X3: deviated bytes whose relations the schema cannot express (e.g. mark class counts):
+            // stability oracle only, like X2 values (name-matched test blobs keep the strong oracle)
+            l.cnt("parsed_blob_stability_only");
+            l.stability_reasons.insert(r.clone());
+            stability::<T, R>(ctx, ops, &v, &case, true, l);
+            return true;
+        }
+    }
     l.cnt(if trusted_consistent { "parsed_corpus_values" } else { "parsed_blob_values" });
     strong::<T, R>(ctx, ops, &v, &case, " (parsed value)", true, l);
     true
@@ -900,6 +943,44 @@ fn alphabets(tier: &str) -> Alphabets {
     } else {
         Alphabets::quick()
     }
+}
+
+/// every distinct (registered top-level type, table bytes, read arguments) of the corpus, in a
+/// fixed order (fonts sorted by path, tables in directory order)
+pub fn corpus_jobs(reg: &[TypeOps]) -> Vec<(usize, String, Vec<u8>, FontArgs)> {
+    let mut jobs: Vec<(usize, String, Vec<u8>, FontArgs)> = vec![];
+    let mut seen = HashSet::new();
+    for (path, bytes) in corpus_fonts() {
+        let fonts: Vec<read_fonts::FontRef> = match read_fonts::FileRef::new(&bytes) {
+            Ok(f) => f.fonts().flatten().collect(),
+            Err(_) => continue,
+        };
+        for (fi, font) in fonts.iter().enumerate() {
+            use read_fonts::TableProvider;
+            let fa = FontArgs {
+                num_glyphs: font.maxp().map(|m| m.num_glyphs()).unwrap_or(0),
+                number_of_h_metrics: font.hhea().map(|h| h.number_of_h_metrics()).unwrap_or(0),
+                number_of_long_ver_metrics: font.vhea().map(|h| h.number_of_long_ver_metrics()).unwrap_or(0),
+            };
+            for rec in font.table_directory.table_records() {
+                let tag = rec.tag();
+                let Some(data) = font.table_data(tag) else { continue };
+                let tag_s = tag.to_string();
+                for (i, ops) in reg.iter().enumerate() {
+                    if ops.tag == Some(tag_s.as_str()) {
+                        let mut h = Fnv::new();
+                        h.u64(i as u64);
+                        h.u64(fa.num_glyphs as u64 | (fa.number_of_h_metrics as u64) << 16 | (fa.number_of_long_ver_metrics as u64) << 32);
+                        h.bytes(data.as_bytes());
+                        if seen.insert(h.finish()) {
+                            jobs.push((i, format!("{path}#{fi}:{tag_s}"), data.as_bytes().to_vec(), fa));
+                        }
+                    }
+                }
+            }
+        }
+    }
+    jobs
 }
 
 fn body(run: &Run, replay: Option<&Value>) {
@@ -919,6 +1000,7 @@ fn body(run: &Run, replay: Option<&Value>) {
             k: 0,
             cap_per_type: 1,
             extend_below: 0,
+            worker: false,
         };
         if matches!(case["source"].as_str(), Some("packed_points") | Some("packed_deltas")) {
             let mut l = Local::default();
@@ -991,7 +1073,11 @@ fn body(run: &Run, replay: Option<&Value>) {
         k: std::env::var("C04_K").ok().and_then(|s| s.parse().ok()).unwrap_or(run.tier.pick(2, 3)),
         cap_per_type: run.tier.pick(2_000_000, 50_000_000),
         extend_below: std::env::var("C04_EXTEND").ok().and_then(|s| s.parse().ok()).unwrap_or(run.tier.pick(2_500, 8_000)),
+        worker: std::env::var("C04_X3_WORKER").is_ok(),
     };
+    if let Ok(spec) = std::env::var("C04_X3_WORKER") {
+        x3::worker(&ctx, &reg, &spec); // never returns
+    }
     run.bound("x2_deviation_bound_k_all_types", json!(ctx.k));
     run.bound("x2_deviation_bound_k_plus_1_for_types_with_at_most_this_many_values_at_k", json!(ctx.extend_below));
     run.bound("x2_cap_tapes_per_first_deviation_subtree", json!(ctx.cap_per_type));
@@ -1076,41 +1162,7 @@ fn body(run: &Run, replay: Option<&Value>) {
 
     // ---- source 2a: corpus tables ---------------------------------------------------------
     let t1 = run.elapsed();
-    let mut jobs: Vec<(usize, String, Vec<u8>, FontArgs)> = vec![];
-    let mut seen = HashSet::new();
-    for (path, bytes) in corpus_fonts() {
-        if !want("corpus") {
-            break;
-        }
-        let fonts: Vec<read_fonts::FontRef> = match read_fonts::FileRef::new(&bytes) {
-            Ok(f) => f.fonts().flatten().collect(),
-            Err(_) => continue,
-        };
-        for (fi, font) in fonts.iter().enumerate() {
-            use read_fonts::TableProvider;
-            let fa = FontArgs {
-                num_glyphs: font.maxp().map(|m| m.num_glyphs()).unwrap_or(0),
-                number_of_h_metrics: font.hhea().map(|h| h.number_of_h_metrics()).unwrap_or(0),
-                number_of_long_ver_metrics: font.vhea().map(|h| h.number_of_long_ver_metrics()).unwrap_or(0),
-            };
-            for rec in font.table_directory.table_records() {
-                let tag = rec.tag();
-                let Some(data) = font.table_data(tag) else { continue };
-                let tag_s = tag.to_string();
-                for (i, ops) in reg.iter().enumerate() {
-                    if ops.tag == Some(tag_s.as_str()) {
-                        let mut h = Fnv::new();
-                        h.u64(i as u64);
-                        h.u64(fa.num_glyphs as u64 | (fa.number_of_h_metrics as u64) << 16 | (fa.number_of_long_ver_metrics as u64) << 32);
-                        h.bytes(data.as_bytes());
-                        if seen.insert(h.finish()) {
-                            jobs.push((i, format!("{path}#{fi}:{tag_s}"), data.as_bytes().to_vec(), fa));
-                        }
-                    }
-                }
-            }
-        }
-    }
+    let jobs = if want("corpus") { corpus_jobs(&reg) } else { vec![] };
     run.count("corpus_tables_distinct", jobs.len() as u64);
     jobs.par_iter().for_each(|(i, label, bytes, fa)| {
         let mut l = Local::default();
@@ -1166,6 +1218,14 @@ fn body(run: &Run, replay: Option<&Value>) {
         total.lock().unwrap().merge(l);
     });
     run.extra("test_data_blobs_without_a_name_matched_readable_type", json!(*unmatched.lock().unwrap()));
+
+    // ---- source 5: X3 one-byte deviations of corpus tables, in supervised worker processes -------
+    if want("x3") {
+        let t = run.elapsed();
+        let l = x3::supervise(run, &reg);
+        total.lock().unwrap().merge(l);
+        run.extra("x3_wall_s", json!(run.elapsed() - t));
+    }
 
     // ---- source 4: name table, (platform, encoding) × boundary strings × forms -------------------
     if want("names") {
